@@ -242,6 +242,11 @@ fn c11_suite<S: ShortGroupSignatureScheme>(em: &mut Emitter, base: &mut Rng, sui
                 }
                 let mut v2 = pv.clone();
                 *get_mut(&mut v2, path).unwrap() = nv;
+                // accumulator proofs: the honest object is verified immediately before the mutated one on the same thread
+                // (whatever a verifier remembers from an accepted presentation must not carry over)
+                if path.iter().any(|s| s == "Revocation" || s == "Membership") {
+                    let _ = scn.verify(&p);
+                }
                 let (verdict, decoded) = verdict_json::<S>(&scn, &v2);
                 // … and for a sample of the mutated ones (the recomputed values must move exactly as the model says)
                 if let Some(q) = &decoded {
